@@ -23,12 +23,13 @@ MAXTASKS = 8
 
 @functools.lru_cache(maxsize=None)
 def topos(n):
-    return cycles.topologies(n)
+    """n = 0: the extra topologies whose links go through a NewType / value alias of the target class"""
+    return cycles.extra_topologies() if n == 0 else cycles.topologies(n)
 
 
 def units(tier):
     out = []
-    for n in range(1, NMAX[tier] + 1):
+    for n in range(0, NMAX[tier] + 1):
         N = len(topos(n))
         for a in range(0, N, STEP):
             out.append(("topo", n, a, min(N, a + STEP)))
@@ -41,7 +42,7 @@ def units(tier):
 def meta(tier):
     return {
         "rule": f"every cyclic class topology over <= {NMAX[tier]} classes (1-2 links per class, <= n+1 links, edge kinds {cycles.KINDS} (a bare class-typed link only towards a class without bare links), non-root relabelings identified) "
-        f"x module styles (from __future__ import annotations / eager with string back references / all classes nested in an outer class / TypedDict classes / NamedTuple classes) x every root form {cycles.ROOT_FORMS} of every class "
+        f"x module styles (from __future__ import annotations / eager with string back references / all classes nested in an outer class / TypedDict classes / NamedTuple classes / plain classes hinted only by the (string) annotations of their __init__) x every root form {cycles.ROOT_FORMS} of every class "
         f"x depths {DEPTHS[tier][0]}..{DEPTHS[tier][-1]} (payloads given as text so an unconverted level is visible), plus 10 recursive-alias programs (string-valued TypeAliasType and PEP 695 `type` statements, also with the alias value as root); "
         "oracle: build within the wall limit; unmarshal(T, wire) same-as the value built directly with the classes; marshal gives the all-plain wire; "
         "round trip; both build orders agree; non-trivial = the call returned; distinct by (topology, style, root, depth, outcome)",
@@ -121,14 +122,16 @@ def judge_root(topo, style, ns, form, node, depths, res, case, order="mu", flavo
 
 def run_topo(n, idx, tier, res, only=None):
     topo = topos(n)[idx]
+    fam_n, n = n, topo.n  # fam_n addresses the topology list (replay), n is the class count from here on
     depths = DEPTHS[tier]
-    for style in ("future", "eager", "nested", "td", "nt"):
-        if style in ("nested", "td", "nt") and n > 2:
+    for style in ("future", "eager", "nested", "td", "nt", "init-future"):
+        extra_style = style not in ("future", "eager")
+        if extra_style and n > 2:
             continue
-        if style in ("nested", "td", "nt") and tier == "quick" and sum(len(ls) for ls in topo.links) > 2:
+        if extra_style and tier == "quick" and sum(len(ls) for ls in topo.links) > 2:
             continue  # quick: the extra class styles only on the topologies with at most two links
-        flavour = style if style in ("td", "nt") else "dc"
-        src = topo.source(style == "future", nested=(style == "nested"), flavour=flavour)
+        flavour = style if style in ("td", "nt") else "init" if style.startswith("init") else "dc"
+        src = topo.source(style in ("future", "init-future"), nested=(style == "nested"), flavour=flavour)
         for node in range(n):
             for form in cycles.ROOT_FORMS:
                 if only is not None and (style, node, form) != tuple(only):
@@ -137,7 +140,7 @@ def run_topo(n, idx, tier, res, only=None):
                 cold.clear_all()
                 name, ns = load(src)
                 res.programs += 1
-                case = {"kind": "topo", "n": n, "idx": idx, "only": [style, node, form], "topology": topo.key(), "module": src}
+                case = {"kind": "topo", "n": fam_n, "idx": idx, "only": [style, node, form], "topology": topo.key(), "module": src}
                 try:
                     a = judge_root(topo, style, ns, form, node, ds, res, case, "mu", flavour)
                 finally:
